@@ -1,5 +1,5 @@
 #!/usr/bin/env python3
-"""Re-run every kept seeded change against the CURRENT checks and /repo HEAD (apply, demo, checks, undo) and refresh
+"""Re-run every kept seeded change against the CURRENT checks and /repo HEAD, in a scratch worktree (VERIF_REPO; apply, demo, checks, undo; /repo untouched) and refresh
 seeded/<id>/meta.json ('rerun' section) -- the table in DESIGN.md section 7 is generated from these files.
 usage: tools/seed_rerun.py [id-prefix ...]"""
 import json, os, subprocess, sys, time
@@ -11,8 +11,22 @@ def sh(cmd, cwd=None, env=None):
     r = subprocess.run(cmd, shell=True, cwd=cwd, env=e, capture_output=True, text=True)
     return r.returncode, (r.stdout + r.stderr)
 
+WT = os.environ.get("SEED_WT", "/tmp/seed_rerun_wt")  # scratch worktree of /repo HEAD: /repo itself is never touched
+
+
 def main():
     want = sys.argv[1:]
+    made = not os.path.exists(WT)
+    if made:
+        sh("git -C /repo worktree add %s HEAD" % WT)
+    try:
+        _main(want)
+    finally:
+        if made:
+            sh("git -C /repo worktree remove --force %s" % WT)
+
+
+def _main(want):
     head = sh("git -C /repo rev-parse --short HEAD")[1].strip()
     for sid in sorted(os.listdir(os.path.join(ROOT, "seeded"))):
         d = os.path.join(ROOT, "seeded", sid)
@@ -24,22 +38,22 @@ def main():
         patch = os.path.join(d, "patch.diff")
         t0 = time.time()
         rr = {"repo_head": head, "checks": {}}
-        c, o = sh("git -C /repo apply --check %s" % patch)
+        c, o = sh("git -C %s apply --check %s" % (WT, patch))
         if c != 0:
             rr["applies"] = False
             rr["note"] = "patch no longer applies to /repo HEAD (the code it changes was repaired or rewritten): " + o.strip()[-200:]
         else:
             rr["applies"] = True
             try:
-                sh("git -C /repo apply %s" % patch)
-                cd, od = sh("/venv/bin/python %s" % os.path.join(d, "demo.py"), "/repo", {"PYTHONPATH": "/repo", "MPLBACKEND": "Agg"})
+                sh("git -C %s apply %s" % (WT, patch))
+                cd, od = sh("/venv/bin/python %s" % os.path.join(d, "demo.py"), WT, {"PYTHONPATH": WT, "MPLBACKEND": "Agg"})
                 rr["demo_exit_with_change"] = cd
                 for pr in props:
-                    cc, oc = sh("./check %s" % pr, ROOT)
+                    cc, oc = sh("./check %s" % pr, ROOT, {"VERIF_REPO": WT, "VERIF_OUT": os.path.join(WT, ".verif_out"), "VERIF_JOBS": os.environ.get("VERIF_JOBS", "4")})
                     lines = [l for l in oc.split("\n") if l.startswith(("VIOLATION", "UNDECIDED", "CHECKER", "  obligation"))][:6]
                     rr["checks"][pr] = {"exit": cc, "lines": lines}
             finally:
-                sh("git -C /repo checkout -- .")
+                sh("git -C %s checkout -- ." % WT)
         rr["detected_by"] = [p for p, r in rr["checks"].items() if r["exit"] == 1]
         rr["undecided_by"] = [p for p, r in rr["checks"].items() if r["exit"] == 2]
         rr["secs"] = round(time.time() - t0, 1)
